@@ -23,7 +23,10 @@ func c04MultiPath(ctx *Ctx) error {
 	doc := J{"openapi": "3.0.3", "info": J{"title": "t", "version": "1"}, "paths": J{
 		"/video/{name}/{id}": J{"get": J{"operationId": "getVideo", "parameters": []interface{}{param("id", num), param("name", str)}, "responses": J{"204": J{"description": "d"}}}},
 		"/subs/{id}/{sub}":   J{"get": J{"operationId": "getSub", "parameters": []interface{}{param("sub", str), param("id", num)}, "responses": J{"204": J{"description": "d"}}}},
-		"/a/{b}/b/{a}/{ab}":  J{"get": J{"operationId": "getAb", "parameters": []interface{}{param("ab", num), param("a", str), param("b", str)}, "responses": J{"204": J{"description": "d"}}}},
+		// the template begins with a variable, and its value has a colon (a first path segment with a colon must not be
+		// read as a URL scheme when the client resolves the path against the server URL)
+		"/{tenant}/items/{item}/detail": J{"get": J{"operationId": "getItem", "parameters": []interface{}{param("tenant", str), param("item", str)}, "responses": J{"204": J{"description": "d"}}}},
+		"/a/{b}/b/{a}/{ab}":             J{"get": J{"operationId": "getAb", "parameters": []interface{}{param("ab", num), param("a", str), param("b", str)}, "responses": J{"204": J{"description": "d"}}}},
 	}}
 	type cse struct {
 		fn   string
@@ -34,6 +37,8 @@ func c04MultiPath(ctx *Ctx) error {
 		{"NewGetVideoRequest", []interface{}{"http://h", "holiday", 42}, J{"name": "holiday", "id": 42}},
 		{"NewGetSubRequest", []interface{}{"http://h", 7, "news"}, J{"id": 7, "sub": "news"}},
 		{"NewGetAbRequest", []interface{}{"http://h", "bee", "ay", 3}, J{"b": "bee", "a": "ay", "ab": 3}},
+		{"NewGetItemRequest", []interface{}{"http://h", "acme:eu", "12:30"}, J{"tenant": "acme:eu", "item": "12:30"}},
+		{"NewGetItemRequest", []interface{}{"http://h", "a b:c", "x"}, J{"tenant": "a b:c", "item": "x"}},
 	}
 	var pkgs []*RunPkg
 	for _, fw := range allFrameworks {
